@@ -788,3 +788,218 @@ Proof.
   split; auto. split; [|split; [unfold Solvent, bal; simp; apply nonneg_get; auto | reflexivity]].
   constructor; simp; auto; try lia; try apply nonneg_map0.
 Qed.
+
+(* ==== statements used by props/C05.v ========================================== *)
+Lemma share_price_step st o st' : Good st -> op_unnested o = true -> step st o = Ok st' -> PM st st' /\ Good st'.
+Proof. intros G U H. destruct (step_good _ _ _ G U H). auto. Qed.
+
+Lemma share_price_history st h1 h2 : Good st -> ~ has_nested_loan (h1 ++ h2) ->
+  PM (run st h1) (run st (h1 ++ h2)) /\ Good (run st (h1 ++ h2)).
+Proof.
+  intros G Hn. apply unnested_iff in Hn. rewrite forallb_app in Hn. apply andb_true_iff in Hn as [U1 U2].
+  destruct (run_good h1 st G U1) as [G1 _]. rewrite run_app. destruct (run_good h2 _ G1 U2) as [G2 P2]. auto.
+Qed.
+
+Lemma first_deposit_facts u z sent st st' : Inv st -> u <> VAULT -> supply st = 0 -> deposit u z sent st = Ok st' ->
+  get (lp st') VAULT = get (lp st) VAULT + MIN_LIQ /\ get (lp st') u = get (lp st) u + (z - MIN_LIQ) /\
+  supply st' = z /\ MIN_LIQ < z.
+Proof.
+  intros I Hne HS H. apply deposit_spec in H as (_ & _ & _ & Hu & ab' & locked & share & Hcase & _ & ->).
+  assert (Hv : (VAULT < length (lp st))%nat) by (unfold VAULT; lia).
+  destruct Hcase as [(_ & -> & -> & Hp)|(Hs & _)]; [|lia]. simp.
+  set (lp1 := upd (lp st) VAULT (get (lp st) VAULT + MIN_LIQ)).
+  assert (Hlen1 : length lp1 = length (lp st)) by (unfold lp1; apply length_upd).
+  repeat split; try lia.
+  - rewrite get_upd_other by auto. unfold lp1. rewrite get_upd_same by lia. lia.
+  - rewrite get_upd_same by lia. unfold lp1. rewrite get_upd_other by auto. lia.
+  - unfold supply in *; simp. rewrite sumZ_upd by lia. unfold lp1. rewrite sumZ_upd by lia. lia.
+Qed.
+
+Lemma deposit_withdraw_le u z sent st st1 st2 : Good st -> u <> VAULT ->
+  0 < supply st \/ backing st = 0 ->
+  deposit u z sent st = Ok st1 ->
+  withdraw u (get (lp st1) u - get (lp st) u) st1 = Ok st2 ->
+  get (ab st2) u - get (ab st1) u <= z.
+Proof.
+  intros G Hne Hdom HD HW.
+  pose proof (deposit_good _ _ _ _ _ G Hne HD) as (G1 & _ & Hpr & Hbal & Hz & Hp).
+  pose proof (withdraw_good _ _ _ _ G1 HW) as (_ & _ & Hw & Hu & Hs2 & Hw0).
+  set (m := get (lp st1) u - get (lp st) u) in *. set (paid := bal st1 - bal st2) in *.
+  replace (get (ab st2) u - get (ab st1) u) with paid by lia.
+  assert (HT1 : backing st1 = backing st + z) by (unfold backing; lia).
+  pose proof (good_backing _ G) as HT.
+  destruct G as (I & _ & _).
+  pose proof (nonneg_sum _ (i_lp _ I)) as HS. fold (supply st) in HS.
+  destruct (Z.lt_ge_cases 0 (supply st)) as [Hpos|Hzero].
+  - destruct (Hpr Hpos) as [Hm HS1]. rewrite HT1, HS1 in Hw.
+    assert (0 <= m).
+    { destruct (deposit_Q _ _ _ _ _ I HD) as (_ & l & sh & Hl & Hsh & Hsum). unfold m.
+      apply deposit_spec in HD as (_ & _ & _ & Hu' & ab' & locked & share & Hcase & _ & ->). simp.
+      assert (Hv : (VAULT < length (lp st))%nat) by (unfold VAULT; lia).
+      rewrite get_upd_same by (rewrite length_upd; lia). rewrite get_upd_other by auto.
+      destruct Hcase as [(Hs0 & _)|(_ & -> & Hle & Hb & ->)]; [lia|].
+      assert (0 <= z * supply st / backing st); [|lia]. apply Z.div_pos; [nia | lia]. }
+    assert (paid * (supply st + m) <= z * (supply st + m)) by nia. nia.
+  - assert (HS0 : supply st = 0) by lia. destruct Hdom as [Hd|Hd]; [lia|].
+    destruct (first_deposit_facts _ _ _ _ _ I Hne HS0 HD) as (_ & Hm & HS1 & Hzm).
+    assert (Hmm : m = z - MIN_LIQ) by (unfold m; lia).
+    rewrite HT1, HS1, Hmm, Hd in Hw. pose proof MIN_LIQ_pos. nia.
+Qed.
+
+Lemma locked_forever st h : Inv st ->
+  Inv (run st h) /\ get (lp st) VAULT <= get (lp (run st h)) VAULT /\ counter (run st h) = counter st /\
+  (0 < supply (run st h) -> MIN_LIQ <= get (lp (run st h)) VAULT).
+Proof.
+  intros I. destruct (run_W h st I) as (I' & C & V & _). split; [exact I'|]. split; [lia|]. split; [auto|]. apply I'.
+Qed.
+
+(* ==== statements used by props/C06.v ========================================== *)
+Lemma loan_atomic st o : failed (step st o) -> apply st o = st.
+Proof. unfold apply. destruct (step st o); cbn; tauto. Qed.
+
+Lemma script_body_QLF z s : loan_free s = true ->
+  forall s1 s2, Inv s1 -> run_script z s s1 = Ok s2 -> Q s1 s2 /\ LF s1 s2.
+Proof.
+  intros Hlf s1 s2 I H. destruct script_Q as [_ QS]. destruct script_LF as [_ LS]. split; eauto.
+Qed.
+
+Lemma router_body_QLF u z pre s : loan_free s = true ->
+  forall s1 s2, Inv s1 -> router_body u z pre s s1 = Ok s2 -> Q s1 s2 /\ LF s1 s2.
+Proof. intros Hlf s1 s2 I H. destruct (router_body_Q _ _ _ _ _ _ I H). auto. Qed.
+
+Lemma no_deposit_during_loan u z sent st : 0 < counter st -> forall st', deposit u z sent st <> Ok st'.
+Proof. intros Hc st' H. apply deposit_spec in H as (_ & H0 & _). lia. Qed.
+
+Lemma step_counter st o st' : Inv st -> step st o = Ok st' -> counter st' = counter st.
+Proof. intros I H. apply (step_W _ _ _ I H). Qed.
+
+Lemma payback_charged c z q pf ff bf : payback c z = Ok (q, pf, ff, bf) ->
+  q = z + pf + ff + bf /\ pf = z * f_prot c / DEC /\ ff = z * f_flash c / DEC /\ bf = z * f_burn c / DEC.
+Proof. intros H. apply payback_spec in H. tauto. Qed.
+
+(* repaying less than the quote never suffices *)
+Lemma underpaid_fails d z st st' : Inv st -> 0 < z -> d < 0 ->
+  flash_loan ADV z (run_script z (SCons (ARepayQ d) SNil)) st <> Ok st'.
+Proof.
+  intros I Hz Hd H. apply flash_loan_spec in H as (_ & _ & ab1 & st2 & Hx & Hbody & Hat).
+  apply after_trade_spec in Hat. cbv zeta in Hat. destruct Hat as (Hle & _ & _).
+  cbn [run_script] in Hbody. bind_as Hbody sb EB. inversion Hbody; subst sb; clear Hbody.
+  apply repayq_inv in EB as (q & pf & ff & bf & Hq & Hcase). simp.
+  apply payback_spec in Hq as (-> & -> & -> & -> & _). simp.
+  assert (AV : ADV <> VAULT) by (unfold ADV, VAULT; lia).
+  assert (Hb1 : get ab1 VAULT = bal st - z).
+  { rewrite (xfer_get _ _ _ _ _ _ VAULT Hx). rewrite Nat.eqb_refl. destruct (Nat.eqb_spec VAULT ADV); [congruence|]. unfold bal. lia. }
+  destruct (fees_valid_true _ _ _ (i_fees _ I)) as (Hp & Hf & Hbn & _).
+  assert (0 <= z) by lia.
+  pose proof (fee_floor_nonneg z _ H Hp). pose proof (fee_floor_nonneg z _ H Hf). pose proof (fee_floor_nonneg z _ H Hbn).
+  destruct Hcase as [[Hneg ->]|(Hpos & ab' & Hx2 & ->)]; simp.
+  - unfold bal in Hle at 2; simp. lia.
+  - unfold bal in Hle at 2; simp. rewrite (xfer_get _ _ _ _ _ _ VAULT Hx2) in Hle. rewrite Nat.eqb_refl in Hle.
+    destruct (Nat.eqb_spec VAULT ADV); [congruence|]. lia.
+Qed.
+
+Lemma xfer_succeeds k l from to z : (from < length l)%nat -> (to < length l)%nat -> 0 <= z -> (k = false -> 0 < z) ->
+  z <= get l from -> exists l', xfer k l from to z = Ok l'.
+Proof.
+  intros Hf Ht Hz Hzk Hle. unfold xfer.
+  assert (E1 : has l from && has l to = true) by (apply andb_true_iff; split; apply has_true; auto).
+  assert (E2 : (if k then 0 <=? z else 0 <? z) = true) by (destruct k; [apply Z.leb_le | apply Z.ltb_lt]; auto).
+  assert (E3 : (z <=? get l from) = true) by (apply Z.leb_le; auto).
+  rewrite E1, E2, E3. cbn. eauto.
+Qed.
+
+(* repaying exactly the quoted amount always suffices *)
+Lemma quoted_suffices z st q pf ff bf ab1 :
+  fl_on (conf st) = true -> 0 <= counter st -> counter st + 1 < P32 ->
+  xfer (kind st) (ab st) VAULT ADV z = Ok ab1 ->               (* the vault can lend z *)
+  payback (conf st) z = Ok (q, pf, ff, bf) ->                  (* the quote *)
+  q <= get ab1 ADV ->                                           (* the borrower holds the quote after receiving the loan *)
+  bal st + pf + ff + bf < P128 -> pend st + pf < P128 -> allf st + pf < P128 -> burned st + bf < P128 ->
+  Inv st ->
+  exists st', flash_loan ADV z (run_script z (SCons (ARepayQ 0) SNil)) st = Ok st'.
+Proof.
+  intros Hfl Hc0 Hc Hx Hq Hfund B1 B2 B3 B4 I.
+  pose proof (payback_spec _ _ _ _ _ _ Hq) as (Epf & Eff & Ebf & Eq & Bq).
+  pose proof (xfer_ok _ _ _ _ _ _ Hx) as (Hv & Ha & Hz & Hzk & Hzb & _).
+  destruct (fees_valid_true _ _ _ (i_fees _ I)) as (Hp & Hf & Hbn & _).
+  pose proof (fee_floor_nonneg z _ Hz Hp). pose proof (fee_floor_nonneg z _ Hz Hf). pose proof (fee_floor_nonneg z _ Hz Hbn).
+  assert (AV : ADV <> VAULT) by (unfold ADV, VAULT; lia).
+  assert (Hb1 : get ab1 VAULT = bal st - z).
+  { rewrite (xfer_get _ _ _ _ _ _ VAULT Hx). rewrite Nat.eqb_refl. destruct (Nat.eqb_spec VAULT ADV); [congruence|]. unfold bal. lia. }
+  pose proof (nonneg_get (ab st) VAULT (i_ab _ I)) as Hbal0. fold (bal st) in Hbal0.
+  unfold flash_loan. rewrite Hfl. cbn [ensure bind]. unfold cadd at 1. rewrite (fits_intro P32 (counter st + 1)) by lia.
+  cbn [bind]. rewrite Hx. cbn [bind].
+  set (st1 := set_counter (set_ab st ab1) (counter st + 1)).
+  assert (Hlen1 : length ab1 = length (ab st)) by (eapply xfer_length; eauto).
+  (* the script *)
+  assert (HS : exists st2, run_script z (SCons (ARepayQ 0) SNil) st1 = Ok st2 /\ bal st2 = bal st + pf + ff + bf /\
+            lp st2 = lp st /\ pend st2 = pend st /\ allf st2 = allf st /\ burned st2 = burned st /\ counter st2 = counter st + 1 /\
+            conf st2 = conf st /\ (VAULT < length (ab st2))%nat).
+  { cbn [run_script run_action]. unfold st1 at 1; simp. rewrite Hq. cbn [bind fst]. rewrite Z.add_0_r.
+    destruct (q <=? 0) eqn:E0.
+    - apply Z.leb_le in E0. cbn [bind]. eexists; split; [reflexivity|]. unfold st1, bal in *; simp. repeat split; auto; lia.
+    - apply Z.leb_gt in E0. rewrite (proj2 (Z.ltb_lt q P128) Bq). cbn [ensure bind].
+      destruct (xfer_succeeds (kind st1) (ab st1) ADV VAULT q) as [ab2 Hx2]; unfold st1; simp; try lia.
+      unfold st1 in Hx2; simp. unfold kind in *; simp. rewrite Hx2. cbn [bind].
+      eexists; split; [reflexivity|]. unfold bal; simp.
+      rewrite (xfer_get _ _ _ _ _ _ VAULT Hx2). rewrite Nat.eqb_refl. destruct (Nat.eqb_spec VAULT ADV); [congruence|].
+      rewrite (xfer_length _ _ _ _ _ _ Hx2). unfold bal in *. repeat split; auto; lia. }
+  destruct HS as (st2 & -> & Hb2 & Hlp2 & Hp2 & Ha2 & Hbu2 & Hc2 & Hcf2 & Hv2). cbn [bind].
+  unfold after_trade. rewrite Hcf2. unfold fee.
+  rewrite <- Epf, <- Eff, <- Ebf.
+  assert (Fp : (pf <? P128) = true) by (apply Z.ltb_lt; lia).
+  assert (Ff : (ff <? P128) = true) by (apply Z.ltb_lt; lia).
+  assert (Fb : (bf <? P128) = true) by (apply Z.ltb_lt; lia).
+  rewrite Fp, Ff, Fb. cbn [bind]. unfold cadd.
+  rewrite (fits_intro P128 (bal st + pf)) by lia. cbn [bind].
+  rewrite (fits_intro P128 (bal st + pf + ff)) by lia. cbn [bind].
+  rewrite (fits_intro P128 (bal st + pf + ff + bf)) by lia. cbn [bind].
+  rewrite Hb2. rewrite (proj2 (Z.leb_le _ _)) by lia. cbn [ensure bind].
+  rewrite Hp2, Ha2. pose proof (i_pend _ I). pose proof (i_allf _ I). pose proof (i_burned _ I).
+  rewrite (fits_intro P128 (pend st + pf)) by lia. cbn [bind].
+  rewrite (fits_intro P128 (allf st + pf)) by lia. cbn [bind].
+  destruct (bf =? 0); [eauto|]. simp. rewrite Hbu2.
+  rewrite (fits_intro P128 (burned st + bf)) by lia. cbn [bind]. eauto.
+Qed.
+
+(* ---- witnesses of the known findings ----------------------------------------- *)
+Definition w_fee : Z := 10000000000000000.     (* 1 % *)
+Definition w_st0 : state :=
+  mkSt [0; 0; 5000000; 0; 0; 0; 4000000; 5000000; 0] [0; 0; 0; 0; 0; 0; 0; 0; 0] 0 0 0 0 (mkCfg w_fee w_fee 0 true true true FACT false).
+Definition w_deposit : op := ODeposit 6%nat 1000000 1000000.
+Definition w_nested : op :=
+  ORun (SCons (ALoan 100000 (SCons (ALoan 800000 (SCons (APay VAULT 816000) SNil)) (SCons (APay VAULT 86000) SNil))) SNil).
+
+Lemma w_st0_good : Good w_st0.
+Proof.
+  split; [|split; [unfold Solvent; vm_compute; discriminate | reflexivity]].
+  constructor; try (vm_compute; discriminate); try reflexivity.
+  - unfold nonneg. cbn. repeat constructor; discriminate.
+  - unfold nonneg. cbn. repeat constructor; discriminate.
+Qed.
+
+(* after the nested loan: balance 1 002 000, pending protocol fee 9 000, supply unchanged: backing fell from 1 000 000 to 993 000 *)
+Lemma nested_witness_values :
+  let st1 := run w_st0 [w_deposit] in let st2 := run w_st0 [w_deposit; w_nested] in
+  step st1 w_nested = Ok st2 /\ supply st1 = 1000000 /\ supply st2 = 1000000 /\ backing st1 = 1000000 /\ backing st2 = 993000 /\
+  bal st1 = 1000000 /\ bal st2 = 1002000 /\ pend st2 = 9000 /\ allf st2 = 9000 /\ counter st2 = 0.
+Proof. vm_compute. repeat split; reflexivity. Qed.
+
+(* donation to an empty vault, first deposit, immediate redemption of the minted shares *)
+Definition d_st0 : state :=
+  mkSt [0; 0; 0; 0; 0; 0; 4000000; 5000000; 0] [0; 0; 0; 0; 0; 0; 0; 0; 0] 0 0 0 0 (mkCfg 0 0 0 true true true FACT false).
+Lemma donation_witness_values :
+  let st1 := run d_st0 [ODonate 7%nat 1000000] in
+  let st2 := run d_st0 [ODonate 7%nat 1000000; ODeposit 6%nat 2000 2000] in
+  let st3 := run d_st0 [ODonate 7%nat 1000000; ODeposit 6%nat 2000 2000; OWithdraw 6%nat 1000] in
+  deposit 6%nat 2000 2000 st1 = Ok st2 /\ get (lp st2) 6%nat - get (lp st1) 6%nat = 1000 /\ withdraw 6%nat 1000 st2 = Ok st3 /\
+  supply st1 = 0 /\ backing st1 = 1000000 /\ get (ab st3) 6%nat - get (ab st2) 6%nat = 501000.
+Proof. vm_compute. repeat split; reflexivity. Qed.
+
+Lemma d_st0_good : Good d_st0.
+Proof.
+  split; [|split; [unfold Solvent; vm_compute; discriminate | reflexivity]].
+  constructor; try (vm_compute; discriminate); try reflexivity.
+  - unfold nonneg. cbn. repeat constructor; discriminate.
+  - unfold nonneg. cbn. repeat constructor; discriminate.
+Qed.
